@@ -6,11 +6,11 @@ def headerFormat : String := "4sH6xHIIHH"
 def headerSignature : List UInt8 := [56, 66, 80, 83]
 def headerVersions : List Nat := [1, 2]
 def channelsMin : Nat := 1
-def channelsMax : Nat := 57
+def channelsMax : Nat := 56
 def heightMin : Nat := 1
-def heightMax : Nat := 300001
+def heightMax : Nat := 300000
 def widthMin : Nat := 1
-def widthMax : Nat := 300001
+def widthMax : Nat := 300000
 def headerDepths : List Nat := [1, 8, 16, 32]
 /-- `ColorMode` values -/
 def colorModes : List Nat := [0, 1, 2, 3, 4, 7, 8, 9]
